@@ -30,6 +30,10 @@ impl PartialEqSpecImpl for BDD {
     open spec fn obeys_eq_spec() -> bool { true }
     open spec fn eq_spec(&self, other: &BDD) -> bool { *self == *other }
 }
+impl PartialEqSpecImpl for SymbolicBDDToken {
+    open spec fn obeys_eq_spec() -> bool { true }
+    open spec fn eq_spec(&self, other: &SymbolicBDDToken) -> bool { *self == *other }
+}
 impl PartialEqSpecImpl for TruthTableEntry {
     open spec fn obeys_eq_spec() -> bool { true }
     open spec fn eq_spec(&self, other: &TruthTableEntry) -> bool { *self == *other }
@@ -58,6 +62,10 @@ pub assume_specification [<BDD as Clone>::clone] (b: &BDD) -> (r: BDD)
     ensures r == *b;
 pub assume_specification [<NamedSymbol as Clone>::clone] (b: &NamedSymbol) -> (r: NamedSymbol)
     ensures r == *b;
+pub assume_specification [<SymbolicBDD as Clone>::clone] (b: &SymbolicBDD) -> (r: SymbolicBDD)
+    ensures r == *b;
+pub assume_specification [<SymbolicBDDToken as Clone>::clone] (b: &SymbolicBDDToken) -> (r: SymbolicBDDToken)
+    ensures r == *b;
 
 // [A5] Rc<T> == Rc<T> compares pointees; Rc::clone yields an equal value
 #[verifier::external_body]
@@ -81,6 +89,42 @@ pub broadcast proof fn axiom_sym_cloned(a: Sym, b: Sym)
 pub assume_specification<T: Clone> [<[T]>::to_vec] (s: &[T]) -> (r: Vec<T>)
     ensures r@.len() == s@.len(), forall|i: int| 0 <= i < s@.len() ==> cloned::<T>(s@[i], #[trigger] r@[i]),
             (forall|a: T, b: T| cloned::<T>(a, b) ==> a == b) ==> r@ == s@;
+
+pub assume_specification<T: PartialEq> [<[T]>::contains] (s: &[T], x: &T) -> (r: bool)
+    ensures T::obeys_eq_spec() ==> r == (exists|i: int| 0 <= i < s@.len() && #[trigger] s@[i].eq_spec(x));
+pub assume_specification<T, U, D: FnOnce() -> U, F: FnOnce(T) -> U> [Option::<T>::map_or_else] (o: Option<T>, default: D, f: F) -> (r: U)
+    requires match o { None => default.requires(()), Some(t) => f.requires((t,)) }
+    ensures match o { None => default.ensures((), r), Some(t) => f.ensures((t,), r) };
+
+pub assume_specification<T, E> [std::result::Result::<T, E>::unwrap_or] (r: std::result::Result<T, E>, d: T) -> (x: T)
+    ensures x == (match r { Ok(t) => t, Err(_) => d });
+pub assume_specification [i64::saturating_add] (a: i64, b: i64) -> (r: i64)
+    ensures r as int == (if a + b > i64::MAX { i64::MAX as int } else if a + b < i64::MIN { i64::MIN as int } else { a + b });
+
+// Iterator::any on a slice (N11): vstd's own specification only states `r ==> exists ..`; this shim states both directions
+#[verifier::external_body]
+pub fn slice_any<T, F: Fn(&T) -> bool>(s: &[T], f: F) -> (r: bool)
+    requires forall|i: int| 0 <= i < s@.len() ==> f.requires((&#[trigger] s@[i],))
+    ensures r ==> exists|i: int| 0 <= i < s@.len() && f.ensures((&#[trigger] s@[i],), true),
+            !r ==> forall|i: int| 0 <= i < s@.len() ==> f.ensures((&#[trigger] s@[i],), false),
+{ s.iter().any(f) }
+
+/// v is an element of vs, spelled with the trigger the std contract of <[T]>::contains produces
+pub open spec fn sym_in(vs: Seq<Sym>, v: Sym) -> bool {
+    exists|i: int| 0 <= i < vs.len() && #[trigger] PartialEqSpec::eq_spec(&vs[i], &v)
+}
+pub proof fn lemma_sym_in(vs: Seq<Sym>, v: Sym)
+    ensures sym_in(vs, v) == vs.contains(v)
+{
+    if sym_in(vs, v) {
+        let i = choose|i: int| 0 <= i < vs.len() && #[trigger] PartialEqSpec::eq_spec(&vs[i], &v);
+        assert(vs[i] == v);
+    }
+    if vs.contains(v) {
+        let i = choose|i: int| 0 <= i < vs.len() && vs[i] == v;
+        assert(PartialEqSpec::eq_spec(&vs[i], &v));
+    }
+}
 
 // [A14] output macros: effect on stdout/stderr not modelled
 pub assume_specification [std::io::_eprint] (args: core::fmt::Arguments<'_>);
